@@ -1152,6 +1152,10 @@ func handleAction(c *webClient, a any) error {
 		}
 
 	case pushClientAction:
+		if c.group == nil {
+			// we left in the meantime
+			return nil
+		}
 		if a.group != c.group.Name() {
 			log.Printf("got client for wrong group")
 			return nil
